@@ -205,7 +205,8 @@ Fixpoint plan (seen : list nat) (k : nat) (refs : list nat) : list item :=
   match refs with
   | [] => []
   | idx :: r =>
-      (if existsb (Nat.eqb idx) seen then [] else [ICie idx]) ++ IFde k :: plan (idx :: seen) (S k) r
+      if existsb (Nat.eqb idx) seen then IFde k :: plan seen (S k) r
+      else ICie idx :: IFde k :: plan (idx :: seen) (S k) r
   end.
 
 (* ---- the Rust operand types, as predicates ---- *)
